@@ -54,7 +54,7 @@ Features == <<"values", "put", "var", "set", "list", "map", "indexing", "arith",
               "if", "while", "for", "fn", "lambda", "closure", "return",
               "fail", "try", "break", "continue", "and", "or", "coalesce", "exception-capture",
               "rest-args", "options", "pipelines", "range", "each", "all", "take", "drop", "count",
-              "one", "compact", "order", "keep-if", "del", "exception-fields">>
+              "one", "compact", "order", "keep-if", "del", "exception-fields", "tmp", "with", "defer", "byte-output", "use", "qualified-names", "keys", "order-less-than", "str-module">>
 
 \* ---------------------------------------------------------------- results
 Res(st, env, vs, out, exc) == [st |-> st, env |-> env, vs |-> vs, out |-> out, exc |-> exc]
@@ -70,7 +70,18 @@ AfterV(ra, rb)       == [rb EXCEPT !.out = ra.out \o rb.out, !.vs = ra.vs \o rb.
 
 \* ---------------------------------------------------------------- store and environments
 InitState == [store |-> <<>>, nfn |-> 1, depth |-> 0, genv |-> [x \in {} |-> 0],
-              inp |-> <<>>, inok |-> TRUE, rd |-> FALSE]
+              inp |-> <<>>, inok |-> TRUE, rd |-> FALSE, df |-> <<>>, infr |-> FALSE,
+              mods |-> [x \in {} |-> 0]]
+EmptyEnv == [x \in {} |-> 0]
+\* the modules available to `use` (in-memory source, Evaler.BundledModules): name -> [ast, status, env]
+\* status: "unloaded" | "loading" | "loaded"; env: the namespace of the loaded module
+WithModules(st, ms) ==
+  [st EXCEPT !.mods = [n \in {ms[i][1] : i \in 1..Len(ms)} |->
+                         [ast |-> ms[CHOOSE i \in 1..Len(ms) : ms[i][1] = n][2], status |-> "unloaded", env |-> EmptyEnv]]]
+VNs(e) == [k |-> "ns", env |-> e]
+StrFns == {"join", "split", "has-prefix", "has-suffix"}
+CNoSuchVar == [c |-> "no-such-variable"]
+StdModules == {"str", "math", "re", "path", "file", "os", "platform", "flag", "doc", "runtime", "store", "unix", "builtin", "epm", "md", "readline-binding"}
 MaxIter  == 200      \* iterations of one `while` inside the model (beyond: OutOfModel)
 MaxDepth == 40       \* nesting of function calls inside the model (beyond: OutOfModel)
 Alloc(st, v)      == [st EXCEPT !.store = Append(@, v)]
@@ -83,7 +94,7 @@ Bound(env, n)     == n \in DOMAIN env
 \* builtin variables ("builtin namespace"): $nil $true $false $ok and the function variables
 BuiltinFnNames == PureNames \cup {"count", "fail", "break", "continue", "return", "each", "range",
                                   "all", "take", "drop", "one", "compact", "order", "keep-if",
-                                  "keys", "has-value", "constantly", "is", "defer"}
+                                  "keys", "has-value", "constantly", "is", "defer", "echo", "print"}
 BuiltinVar(n) == CASE n = "nil"   -> <<VNil>>
                    [] n = "true"  -> <<VBool(TRUE)>>
                    [] n = "false" -> <<VBool(FALSE)>>
@@ -107,10 +118,51 @@ RECURSIVE ExecForLoop(_, _, _, _, _, _, _)
 RECURSIVE EvalLogic(_, _, _, _, _, _)
 RECURSIVE EvalOpts(_, _, _, _, _)
 RECURSIVE ExecDel(_, _, _, _)
+RECURSIVE RunThunks(_, _, _, _, _)
+RECURSIVE WithAssigns(_, _, _, _, _)
+RECURSIVE QEnv(_, _, _, _)
+RECURSIVE ExecTop(_, _, _, _)
 
 \* A block (body of if/while/for/try, of a function) runs in a new lexical scope: the names it
 \* declares are gone afterwards, the variables (locations) it changed are not.
-ExecBlock(st, env, chunk) == LET r == ExecChunk(st, env, chunk.ps, 1) IN [r EXCEPT !.env = env]
+\*
+\* FRAMES ("tmp", "with", builtin `defer`).  Every closure call -- a function, a lambda, the body
+\* of if / while / for / try / with, a callback -- is a frame with a list st.df of cleanup thunks:
+\* `tmp` appends [t:"restore", loc, v] holding the WHOLE saved value of the variable, `defer`
+\* appends [t:"cb", f].  When the body has finished, however it finished, the thunks run in reverse
+\* order of registration.  Completion of the frame: the body's exception if it threw; otherwise the
+\* exception of a failing deferred callback ("any exception it throws gets propagated").
+\* Unspecified: which one when several deferred callbacks fail; and whether a failing callback
+\* counts when the body of a `fn` function ended by `return`.  The top level is not a frame.
+EnterFrame(st) == [st EXCEPT !.df = <<>>, !.infr = TRUE]
+\* thunks df[1..j] in reverse; acc == [st, out, fails: causes of the failing callbacks, skip]
+RunThunks(env, df, j, acc, dummy) ==
+  IF j = 0 \/ acc.skip # <<>> THEN acc
+  ELSE LET th == df[j] IN
+       IF th.t = "restore" THEN RunThunks(env, df, j - 1, [acc EXCEPT !.st = SetLoc(@, th.loc, th.v)], dummy)
+       ELSE LET r == CallFn(acc.st, env, th.f, <<>>, <<>>) IN
+            RunThunks(env, df, j - 1,
+                      [st |-> r.st, out |-> acc.out \o r.out,
+                       fails |-> IF Failed(r) /\ ~Skip(r.exc) THEN Append(acc.fails, r.exc) ELSE acc.fails,
+                       skip |-> IF Skip(r.exc) THEN <<r.exc>> ELSE <<>>], dummy)
+\* r: result of the body run in EnterFrame(st0); returned: the result of the frame, in the caller's
+\* environment env and with the caller's frame restored.  swallowed: the body ended by a `return`
+\* that the function captured.
+LeaveFrame(r, st0, env, swallowed) ==
+  IF Skip(r.exc) THEN [r EXCEPT !.env = env, !.st.df = st0.df, !.st.infr = st0.infr]
+  ELSE LET t == RunThunks(env, r.st.df, Len(r.st.df),
+                          [st |-> [r.st EXCEPT !.df = <<>>], out |-> <<>>, fails |-> <<>>, skip |-> <<>>], 0)
+           exc == IF t.skip # <<>> THEN t.skip[1]
+                  ELSE IF Failed(r) THEN r.exc
+                  ELSE IF t.fails = <<>> THEN COk
+                  ELSE IF Len(t.fails) > 1 THEN OOM("Unspecified: several deferred callbacks fail")
+                  ELSE IF swallowed THEN OOM("Unspecified: return, then a deferred callback fails")
+                  ELSE t.fails[1]
+       IN [r EXCEPT !.st = [t.st EXCEPT !.df = st0.df, !.infr = st0.infr], !.env = env,
+                    !.out = r.out \o t.out, !.exc = exc, !.vs = <<>>]
+
+ExecBlock(st, env, chunk) ==
+  LeaveFrame(ExecChunk(EnterFrame(st), env, chunk.ps, 1), st, env, FALSE)
 
 \* ---- expressions ("Expressions")
 Explode(st, env, v) ==
@@ -118,8 +170,24 @@ Explode(st, env, v) ==
   ELSE IF v.k = "str" THEN (IF Ascii(v.s) THEN Vals(st, env, Elements(v)) ELSE Throw(st, env, COOM))
   ELSE Throw(st, env, CType)                               \* "cannot iterate"
 
+\* "Qualified name": $a:b:c is $a:[b:][c] -- the first component is resolved like a normal variable,
+\* the following ones in the namespace held by the previous one (at run time).
+\* QEnv: the environment in which the last component is looked up.  -> [ok, env] | [ok |-> FALSE, c]
+QEnv(st, env, q, i) ==
+  IF i > Len(q) THEN [ok |-> TRUE, env |-> env]
+  ELSE IF ~Bound(env, q[i]) THEN
+         (IF i = 1 THEN [ok |-> FALSE, c |-> OOM("unresolved namespace")] ELSE [ok |-> FALSE, c |-> CNoSuchVar])
+  ELSE LET v == st.store[env[q[i]]] IN
+       IF v.k # "ns" THEN [ok |-> FALSE, c |-> CNoSuchVar] ELSE QEnv(st, v.env, q, i + 1)
+
 EvalVar(st, env, e) ==
-  IF Bound(env, e.n) THEN
+  IF e.q # <<>> THEN
+    LET qe == QEnv(st, env, e.q, 1) IN
+    IF ~qe.ok THEN Throw(st, env, qe.c)
+    ELSE IF ~Bound(qe.env, e.n) THEN Throw(st, env, CNoSuchVar)          \* "variable $m:x not found", at run time
+    ELSE LET v == st.store[qe.env[e.n]] IN
+         IF e.explode THEN Explode(st, env, v) ELSE Vals(st, env, <<v>>)
+  ELSE IF Bound(env, e.n) THEN
     LET v == st.store[env[e.n]] IN
     IF e.explode THEN Explode(st, env, v) ELSE Vals(st, env, <<v>>)
   ELSE LET b == BuiltinVar(e.n) IN
@@ -173,7 +241,9 @@ EvalExpr(st, env, e) ==
     [] e.t = "cap"   -> \* "Output capture": same scope; the chunk's value output becomes the values
                         LET r == ExecChunk(st, env, e.c.ps, 1) IN
                         IF Failed(r) THEN [r EXCEPT !.out = <<>>]
-                        ELSE [r EXCEPT !.vs = r.out, !.out = <<>>]
+                        ELSE LET cp == Captured(r.out) IN
+                             IF cp.ok THEN [r EXCEPT !.vs = cp.vs, !.out = <<>>]
+                             ELSE [r EXCEPT !.out = <<>>, !.exc = CUnspecBands]
     [] e.t = "xcap"  -> \* "Exception capture": evaluates to the exception or $ok; output is not affected
                         LET r == ExecChunk(st, env, e.c.ps, 1) IN
                         IF Skip(r.exc) THEN r
@@ -241,16 +311,22 @@ Assocers(v, idx, i, acc) ==
 
 ResolveLVs(st, env, lvs, i, acc) ==
   IF i > Len(lvs) THEN Vals(st, env, acc)
-  ELSE LET lv == lvs[i] IN
-       IF ~Bound(env, lv.n) THEN Throw(st, env, COOM)
+  ELSE LET lv0 == lvs[i]
+           qe == QEnv(st, env, lv0.q, 1)
+           \* the lvalue seen in the environment its name lives in
+           lenv == IF qe.ok THEN qe.env ELSE env
+           lv == lv0
+       IN
+       IF ~qe.ok THEN Throw(st, env, qe.c)
+       ELSE IF ~Bound(lenv, lv.n) THEN Throw(st, env, IF lv.q # <<>> THEN CNoSuchVar ELSE COOM)
        ELSE IF lv.idx = <<>> THEN
-              ResolveLVs(st, env, lvs, i + 1, Append(acc, [loc |-> env[lv.n], as |-> <<>>, idx |-> <<>>]))
+              ResolveLVs(st, env, lvs, i + 1, Append(acc, [loc |-> lenv[lv.n], as |-> <<>>, idx |-> <<>>]))
        ELSE LET ri == EvalSingles(st, env, lv.idx, 1, <<>>, COOM) IN     \* "multi indexing not implemented"
             IF Failed(ri) THEN ri
-            ELSE LET a == Assocers(ri.st.store[env[lv.n]], ri.vs, 1, <<>>) IN
+            ELSE LET a == Assocers(ri.st.store[lenv[lv.n]], ri.vs, 1, <<>>) IN
                  IF ~a.ok THEN After(ri, Throw(ri.st, ri.env, a.c))
                  ELSE After(ri, ResolveLVs(ri.st, ri.env, lvs, i + 1,
-                                           Append(acc, [loc |-> env[lv.n], as |-> a.as, idx |-> ri.vs])))
+                                           Append(acc, [loc |-> lenv[lv.n], as |-> a.as, idx |-> ri.vs])))
 
 RECURSIVE AssocPath(_, _, _, _)
 AssocPath(as, idx, i, v) ==
@@ -303,9 +379,10 @@ CallFn(st, env, f, args, opts) ==
                         LET j == OptFind(opts, f.optn[i], Len(opts)) IN
                         IF j = 0 THEN f.optd[i] ELSE opts[j][2]]
              sc == Declare([st EXCEPT !.depth = @ + 1], f.env, f.params \o f.optn, d.vals \o optv, 1)
-             r == ExecChunk(sc.st, sc.env, f.body.ps, 1)
-             exc == IF f.wrap /\ r.exc.c = "flow" /\ r.exc.n = "return" THEN COk ELSE r.exc
-         IN [r EXCEPT !.env = env, !.st.depth = st.depth, !.exc = exc, !.vs = <<>>]
+             r == ExecChunk(EnterFrame(sc.st), sc.env, f.body.ps, 1)
+             swallowed == f.wrap /\ r.exc.c = "flow" /\ r.exc.n = "return"
+             rf == LeaveFrame([r EXCEPT !.exc = IF swallowed THEN COk ELSE r.exc], st, env, swallowed)
+         IN [rf EXCEPT !.st.depth = st.depth]
 
 \* ---- commands ("Ordinary command")
 \* The value inputs of a command taking `inputs?`: the extra argument if given (an iterable value),
@@ -315,9 +392,11 @@ Inputs(st, args, nfixed) ==
     LET v == args[nfixed + 1] IN
     IF ~Iterable(v) THEN [ok |-> FALSE, c |-> CType]
     ELSE IF v.k = "str" /\ ~Ascii(v.s) THEN [ok |-> FALSE, c |-> COOM]
-    ELSE [ok |-> TRUE, vs |-> Elements(v), st |-> st]
+    ELSE [ok |-> TRUE, vs |-> Elements(v), st |-> st, unord |-> FALSE]
   ELSE IF ~st.inok THEN [ok |-> FALSE, c |-> OOM("a callback reads its caller's input")]
-  ELSE [ok |-> TRUE, vs |-> st.inp, st |-> [st EXCEPT !.inp = <<>>, !.rd = TRUE]]
+  ELSE LET cp == Captured(Expand(st.inp)) IN  \* the value input and the lines of the byte input
+       IF ~cp.ok THEN [ok |-> FALSE, c |-> CUnspecBands]
+       ELSE [ok |-> TRUE, vs |-> cp.vs, st |-> [st EXCEPT !.inp = <<>>, !.rd = TRUE], unord |-> HasUnord(st.inp)]
 
 \* an exact integer argument (take, drop): [ok, n] | [ok |-> FALSE, c]
 IntArg(v) == LET c == AsNum(v) IN
@@ -377,18 +456,63 @@ KeepLoop(st, env, f, vs, i, acc) ==
   IF i > Len(vs) THEN acc
   ELSE LET r == CallBack(st, env, f, <<vs[i]>>) IN
        IF Failed(r) THEN After(acc, [r EXCEPT !.out = <<>>])
-       ELSE IF Len(r.out) # 1 THEN After(acc, [r EXCEPT !.out = <<>>, !.exc = CArity])
-       ELSE IF r.out[1].k # "bool" THEN After(acc, [r EXCEPT !.out = <<>>, !.exc = CBadValue])
+       ELSE LET cp == Captured(r.out) IN
+       IF ~cp.ok THEN After(acc, [r EXCEPT !.out = <<>>, !.exc = CUnspecBands])
+       ELSE IF Len(cp.vs) # 1 THEN After(acc, [r EXCEPT !.out = <<>>, !.exc = CArity])
+       ELSE IF cp.vs[1].k # "bool" THEN After(acc, [r EXCEPT !.out = <<>>, !.exc = CBadValue])
        ELSE KeepLoop(r.st, env, f, vs, i + 1,
-                     After(acc, [r EXCEPT !.out = IF r.out[1].b THEN <<vs[i]>> ELSE <<>>]))
+                     After(acc, [r EXCEPT !.out = IF cp.vs[1].b THEN <<vs[i]>> ELSE <<>>]))
 
 \* order &key: the callback must output exactly one value per input; acc.vs collects the keys
 KeyLoop(st, env, f, vs, i, acc) ==
   IF i > Len(vs) THEN acc
   ELSE LET r == CallBack(st, env, f, <<vs[i]>>) IN
        IF Failed(r) THEN [r EXCEPT !.out = <<>>, !.vs = <<>>]
-       ELSE IF Len(r.out) # 1 THEN [r EXCEPT !.out = <<>>, !.vs = <<>>, !.exc = CArity]
-       ELSE KeyLoop(r.st, env, f, vs, i + 1, [r EXCEPT !.vs = acc.vs \o r.out, !.out = <<>>])
+       ELSE LET cp == Captured(r.out) IN
+       IF ~cp.ok THEN [r EXCEPT !.out = <<>>, !.vs = <<>>, !.exc = CUnspecBands]
+       ELSE IF Len(cp.vs) # 1 THEN [r EXCEPT !.out = <<>>, !.vs = <<>>, !.exc = CArity]
+       ELSE KeyLoop(r.st, env, f, vs, i + 1, [r EXCEPT !.vs = acc.vs \o cp.vs, !.out = <<>>])
+
+RECURSIVE SplitAt(_, _, _, _)
+\* pieces of s between non-overlapping occurrences of sep (not empty), scanning from the left
+SplitAt(s, sep, i, cur) ==
+  IF i > Len(s) THEN <<VStr(cur)>>
+  ELSE IF i + Len(sep) - 1 <= Len(s) /\ SubSeq(s, i, i + Len(sep) - 1) = sep
+       THEN <<VStr(cur)>> \o SplitAt(s, sep, i + Len(sep), <<>>)
+  ELSE SplitAt(s, sep, i + 1, Append(cur, s[i]))
+
+\* order: "The sorting process is stable"; the comparator is compare (Cmp), or &less-than, applied
+\* to the values or to their &key images; &reverse reverses the order.  For up to 20 values the
+\* model follows an insertion sort step by step, asking the comparator exactly for the pairs
+\* (x[j], x[j-1]) such a sort asks for, so that a comparator with effects, an inconsistent one, an
+\* uncomparable pair or a failing callback give the same outcome: the first failure ends the
+\* comparisons and is the exception of `order`.
+\* Less: -> [r: result (state, exception), lt: BOOLEAN]
+LessOf(st, env, lt, a, b) ==
+  IF lt.k = "nil" THEN
+    IF EqUndecided(a, b) THEN [r |-> Throw(st, env, OOM("identity of exception values")), lt |-> FALSE]
+    ELSE LET o == Cmp(a, b) IN
+         IF o = "unc" THEN [r |-> Throw(st, env, CBadValue), lt |-> FALSE]
+         ELSE [r |-> Done(st, env), lt |-> o = "lt"]
+  ELSE LET r == CallBack(st, env, lt, <<a, b>>) IN
+       IF Failed(r) THEN [r |-> [r EXCEPT !.out = <<>>], lt |-> FALSE]
+       ELSE LET cp == Captured(r.out) IN
+            IF ~cp.ok THEN [r |-> [r EXCEPT !.out = <<>>, !.exc = CUnspecBands], lt |-> FALSE]
+            ELSE IF Len(cp.vs) # 1 THEN [r |-> [r EXCEPT !.out = <<>>, !.exc = CArity], lt |-> FALSE]
+            ELSE IF cp.vs[1].k # "bool" THEN [r |-> [r EXCEPT !.out = <<>>, !.exc = CBadValue], lt |-> FALSE]
+            ELSE [r |-> [r EXCEPT !.out = <<>>], lt |-> cp.vs[1].b]
+RECURSIVE SortLoop(_, _, _, _, _, _, _, _)
+\* insertion sort: for i in 2..n: j from i down while less(x[j], x[j-1]) swap.  -> [r, items]
+SortLoop(st, env, lt, rev, items, i, j, dummy) ==
+  IF i > Len(items) THEN [r |-> Done(st, env), items |-> items]
+  ELSE IF j < 2 THEN SortLoop(st, env, lt, rev, items, i + 1, i + 1, dummy)
+  ELSE LET a == IF rev THEN items[j - 1].key ELSE items[j].key
+           b == IF rev THEN items[j].key ELSE items[j - 1].key
+           l == LessOf(st, env, lt, a, b)
+       IN IF Failed(l.r) THEN [r |-> l.r, items |-> items]
+          ELSE IF l.lt THEN SortLoop(l.r.st, env, lt, rev,
+                                     [items EXCEPT ![j] = items[j - 1], ![j - 1] = items[j]], i, j - 1, dummy)
+          ELSE SortLoop(l.r.st, env, lt, rev, items, i + 1, i + 1, dummy)
 
 OptNamesOK(opts, allowed) == \A i \in 1..Len(opts) : opts[i][1] \in allowed
 OptVal(opts, n, dflt) == LET j == OptFind(opts, n, Len(opts)) IN IF j = 0 THEN dflt ELSE opts[j][2]
@@ -399,7 +523,7 @@ CallBuiltin(st, env, name, args, opts) ==
   IF name \in PureNames THEN
     IF opts # <<>> /\ name # "nop" THEN Throw(st, env, OOM("options given to a builtin without options"))
     ELSE LET p == Pure(name, args) IN Res(st, env, <<>>, p.out, p.exc)
-  ELSE IF opts # <<>> /\ name \notin {"range", "order"} THEN Throw(st, env, OOM("options given to a builtin without options"))
+  ELSE IF opts # <<>> /\ name \notin {"range", "order", "echo", "print"} THEN Throw(st, env, OOM("options given to a builtin without options"))
   ELSE CASE name = "count" ->
               IF Len(args) > 1 THEN Throw(st, env, CArity)
               ELSE IF Len(args) = 1 THEN
@@ -412,12 +536,52 @@ CallBuiltin(st, env, name, args, opts) ==
               ELSE IF args[1].k = "exc" THEN                        \* "If $v is already an exception, fail rethrows it"
                      (IF args[1].c.c = "ok" THEN Throw(st, env, COOM) ELSE Throw(st, env, args[1].c))
               ELSE Throw(st, env, CFail(args[1]))
+         [] name \in {"echo", "print"} ->
+              \* the arguments as strings joined by &sep (a space), echo adds a newline; written to the byte band
+              IF ~OptNamesOK(opts, {"sep"}) THEN Throw(st, env, CBadOpt)
+              ELSE LET sep == OptVal(opts, "sep", VStr(<<32>>)) IN
+                   IF sep.k # "str" THEN Throw(st, env, OOM("&sep is not a string"))
+                   ELSE IF \E q \in 1..Len(args) : ~Stringable(args[q]) THEN Throw(st, env, OOM("echo of a value that is not a string or number"))
+                   ELSE LET body == Flatten([q \in 1..Len(args) |-> (IF q > 1 THEN sep.s ELSE <<>>) \o ToBytes(args[q])])
+                            bs == IF name = "echo" THEN Append(body, 10) ELSE body
+                        IN IF bs = <<>> THEN Done(st, env) ELSE Outs(st, env, <<VBytes(bs)>>)
+         [] name \in {"str:has-prefix", "str:has-suffix"} ->
+              IF Len(args) # 2 THEN Throw(st, env, CArity)
+              ELSE IF args[1].k # "str" \/ args[2].k # "str" THEN Throw(st, env, CType)
+              ELSE LET a == args[1].s  b == args[2].s IN
+                   Outs(st, env, <<VBool(Len(b) <= Len(a) /\
+                        (IF name = "str:has-prefix" THEN SubSeq(a, 1, Len(b)) = b
+                         ELSE SubSeq(a, Len(a) - Len(b) + 1, Len(a)) = b))>>)
+         [] name = "str:join" ->         \* the string inputs joined by the separator
+              IF Len(args) < 1 \/ Len(args) > 2 THEN Throw(st, env, CArity)
+              ELSE IF args[1].k # "str" THEN Throw(st, env, CType)
+              ELSE LET i == Inputs(st, args, 1) IN
+                   IF ~i.ok THEN Throw(st, env, i.c)
+                   ELSE IF i.unord THEN Throw(st, env, CUnspecBands)
+                   ELSE IF \E q \in 1..Len(i.vs) : i.vs[q].k # "str" THEN Throw(i.st, env, CBadValue)
+                   ELSE Outs(i.st, env, <<VStr(Flatten([q \in 1..Len(i.vs) |-> (IF q > 1 THEN args[1].s ELSE <<>>) \o i.vs[q].s]))>>)
+         [] name = "str:split" ->        \* the pieces of the string between occurrences of the separator
+              IF Len(args) # 2 THEN Throw(st, env, CArity)
+              ELSE IF args[1].k # "str" \/ args[2].k # "str" THEN Throw(st, env, CType)
+              ELSE IF args[1].s = <<>> THEN
+                     (IF Ascii(args[2].s) THEN Outs(st, env, Elements(args[2])) ELSE Throw(st, env, OOM("split of a non-ASCII string into characters")))
+              ELSE Outs(st, env, SplitAt(args[2].s, args[1].s, 1, <<>>))
+         [] name = "keys" ->
+              IF Len(args) # 1 THEN Throw(st, env, CArity)
+              ELSE IF args[1].k # "map" THEN Throw(st, env, IF args[1].k \in {"fn", "exc", "ns", "reason"} THEN OOM("keys of a pseudo-map") ELSE CType)
+              ELSE Outs(st, env, <<VUnord([q \in 1..Len(args[1].ps) |-> args[1].ps[q][1]])>>)
+         [] name = "defer" ->
+              IF Len(args) # 1 THEN Throw(st, env, CArity)
+              ELSE IF args[1].k # "fn" THEN Throw(st, env, CType)
+              ELSE IF ~st.infr THEN Throw(st, env, [c |-> "defer-outside"])   \* "defer must be called from within a closure"
+              ELSE Done([st EXCEPT !.df = Append(@, [t |-> "cb", f |-> args[1]])], env)
          [] name \in {"return", "break", "continue"} ->
               IF Len(args) # 0 THEN Throw(st, env, CArity) ELSE Throw(st, env, CFlow(name))
          [] name \in {"all", "one", "compact"} ->
               IF Len(args) > 1 THEN Throw(st, env, CArity)
               ELSE LET i == Inputs(st, args, 0) IN
                    IF ~i.ok THEN Throw(st, env, i.c)
+                   ELSE IF i.unord THEN Throw(st, env, CUnspecBands)
                    ELSE IF name = "all" THEN Outs(i.st, env, i.vs)
                    ELSE IF name = "compact" THEN
                           (IF \E q \in 1..(Len(i.vs) - 1) : EqUndecided(i.vs[q], i.vs[q + 1])
@@ -430,6 +594,7 @@ CallBuiltin(st, env, name, args, opts) ==
                    IF ~n.ok THEN Throw(st, env, n.c)
                    ELSE LET i == Inputs(st, args, 1) IN
                         IF ~i.ok THEN Throw(st, env, i.c)
+                        ELSE IF i.unord THEN Throw(st, env, CUnspecBands)
                         ELSE LET m == IF n.n < 0 THEN 0 ELSE IF n.n > Len(i.vs) THEN Len(i.vs) ELSE n.n IN
                              IF name = "take" THEN Outs(i.st, env, SubSeq(i.vs, 1, m))
                              ELSE Outs(i.st, env, SubSeq(i.vs, m + 1, Len(i.vs)))
@@ -452,36 +617,35 @@ CallBuiltin(st, env, name, args, opts) ==
               ELSE IF args[1].k # "fn" THEN Throw(st, env, CType)
               ELSE LET i == Inputs(st, args, 1) IN
                    IF ~i.ok THEN Throw(st, env, i.c)
+                   ELSE IF i.unord THEN Throw(st, env, CUnspecBands)
                    ELSE EachLoop(i.st, env, args[1], i.vs, 1, Done(i.st, env))
          [] name = "keep-if" ->
               IF Len(args) < 1 \/ Len(args) > 2 THEN Throw(st, env, CArity)
               ELSE IF args[1].k # "fn" THEN Throw(st, env, CType)
               ELSE LET i == Inputs(st, args, 1) IN
                    IF ~i.ok THEN Throw(st, env, i.c)
+                   ELSE IF i.unord THEN Throw(st, env, CUnspecBands)
                    ELSE KeepLoop(i.st, env, args[1], i.vs, 1, Done(i.st, env))
          [] name = "order" ->
               IF Len(args) > 1 THEN Throw(st, env, CArity)
-              ELSE IF ~OptNamesOK(opts, {"reverse", "key"}) THEN
-                   (IF OptNamesOK(opts, {"reverse", "key", "less-than", "total"}) THEN Throw(st, env, COOM)
+              ELSE IF ~OptNamesOK(opts, {"reverse", "key", "less-than"}) THEN
+                   (IF OptNamesOK(opts, {"reverse", "key", "less-than", "total"}) THEN Throw(st, env, OOM("order &total"))
                     ELSE Throw(st, env, CBadOpt))
               ELSE LET rev == OptVal(opts, "reverse", VBool(FALSE))
                        key == OptVal(opts, "key", VNil)
-                   IN IF rev.k # "bool" \/ key.k \notin {"nil", "fn"} THEN Throw(st, env, COOM)
+                       lt  == OptVal(opts, "less-than", VNil)
+                   IN IF rev.k # "bool" \/ key.k \notin {"nil", "fn"} \/ lt.k \notin {"nil", "fn"} THEN Throw(st, env, OOM("order: option value"))
                       ELSE LET i == Inputs(st, args, 0) IN
                            IF ~i.ok THEN Throw(st, env, i.c)
+                           ELSE IF i.unord /\ (key.k # "nil" \/ lt.k # "nil") THEN Throw(i.st, env, OOM("order of keys"))
+                           ELSE IF Len(i.vs) > 20 THEN Throw(i.st, env, OOM("order of more than 20 values"))
                            ELSE LET rk == IF key.k = "nil" THEN Vals(i.st, env, i.vs)
                                           ELSE KeyLoop(i.st, env, key, i.vs, 1, Vals(i.st, env, <<>>))
                                 IN IF Failed(rk) THEN rk
                                    ELSE LET items == [q \in 1..Len(i.vs) |-> [v |-> i.vs[q], key |-> rk.vs[q]]]
-                                        IN IF \E q1 \in 1..Len(items) : \E q2 \in 1..Len(items) : EqUndecided(items[q1].key, items[q2].key)
-                                           THEN Throw(rk.st, env, OOM("identity of exception values"))
-                                           ELSE IF ~AllComparable(items) THEN
-                                             \* an uncomparable pair is an error if the sort meets it
-                                             (IF AnyUncomparableAdjacent(items) \/ Len(items) <= 12 THEN Throw(rk.st, env, CBadValue)
-                                              ELSE Throw(rk.st, env, COOM))
-                                           ELSE LET srt == SortItems(IF rev.b THEN Reverse(items) ELSE items, 1, <<>>)
-                                                    ord == IF rev.b THEN Reverse(srt.items) ELSE srt.items
-                                                IN Outs(rk.st, env, [q \in 1..Len(ord) |-> ord[q].v])
+                                            srt == SortLoop(rk.st, env, lt, rev.b, items, 2, 2, <<>>)
+                                        IN IF Failed(srt.r) THEN [srt.r EXCEPT !.vs = <<>>, !.out = <<>>]     \* "without outputting any value"
+                                           ELSE [srt.r EXCEPT !.vs = <<>>, !.out = [q \in 1..Len(srt.items) |-> srt.items[q].v]]
          [] OTHER -> Throw(st, env, OOM("builtin outside the model"))
 
 \* options of a command: &name=expr, each expression exactly one value
@@ -497,7 +661,16 @@ HasSlash(s) == \E i \in 1..Len(s) : s[i] = 47
 \* The command head: a literal name is resolved statically ($name~ in scope, else the builtin of
 \* that name, else an external command); any other expression must evaluate to one callable.
 EvalHead(st, env, h) ==
-  IF h.t = "name" THEN
+  IF h.t = "name" /\ Len(h.q) = 1 /\ Bound(env, h.q[1]) /\ st.store[env[h.q[1]]].k = "ns"
+     /\ "b" \in DOMAIN st.store[env[h.q[1]]] THEN
+    IF h.n \in StrFns THEN Vals(st, env, <<VBuiltin("str:" \o h.n)>>) ELSE Throw(st, env, OOM("command of str: outside the model"))
+  ELSE IF h.t = "name" /\ h.q # <<>> THEN
+    LET qe == QEnv(st, env, h.q, 1) IN
+    IF ~qe.ok THEN Throw(st, env, qe.c)
+    ELSE IF ~Bound(qe.env, h.n \o "~") THEN Throw(st, env, CNoSuchVar)
+    ELSE LET v == st.store[qe.env[h.n \o "~"]] IN
+         IF v.k = "fn" THEN Vals(st, env, <<v>>) ELSE Throw(st, env, COOM)
+  ELSE IF h.t = "name" THEN
     IF Bound(env, h.n \o "~") THEN
       LET v == st.store[env[h.n \o "~"]] IN
       IF v.k = "fn" THEN Vals(st, env, <<v>>) ELSE Throw(st, env, COOM)
@@ -540,6 +713,46 @@ ExecSet(st, env, f) ==
             IF ~d.ok THEN After(rl, [rr EXCEPT !.vs = <<>>, !.exc = CArity])
             ELSE LET s == StoreAll(rr.st, rl.vs, d.vals, 1) IN
                  After(rl, [rr EXCEPT !.vs = <<>>, !.st = s.st, !.exc = IF s.ok THEN COk ELSE s.c])
+
+\* "tmp": as `set`, but each variable's whole value is saved just before it is assigned and a
+\* restore thunk is added to the current frame ("restore them ... when the current function has
+\* finished").  -> as StoreAll, collecting the thunks
+RECURSIVE StoreAllSaving(_, _, _, _, _)
+StoreAllSaving(st, refs, vals, i, ths) ==
+  IF i > Len(refs) THEN [ok |-> TRUE, st |-> st, ths |-> ths]
+  ELSE LET nv == AssocPath(refs[i].as, refs[i].idx, Len(refs[i].idx), vals[i]) IN
+       IF ~nv.ok THEN [ok |-> FALSE, st |-> st, c |-> nv.c, ths |-> ths]
+       ELSE StoreAllSaving(SetLoc(st, refs[i].loc, nv.v), refs, vals, i + 1,
+                           Append(ths, [t |-> "restore", loc |-> refs[i].loc, v |-> st.store[refs[i].loc]]))
+
+\* one saving assignment `lhs = rhs`; -> result r with r.vs = the restore thunks
+SavingAssign(st, env, f) ==
+  LET rl == ResolveLVs(st, env, f.lhs, 1, <<>>) IN
+  IF Failed(rl) THEN [rl EXCEPT !.vs = <<>>]
+  ELSE LET rr == EvalExprs(rl.st, rl.env, f.rhs, 1) IN
+       IF Failed(rr) THEN After(rl, [rr EXCEPT !.vs = <<>>])
+       ELSE LET d == Distribute(rr.vs, Len(f.lhs), f.rest) IN
+            IF ~d.ok THEN After(rl, [rr EXCEPT !.vs = <<>>, !.exc = CArity])
+            ELSE LET s == StoreAllSaving(rr.st, rl.vs, d.vals, 1, <<>>) IN
+                 After(rl, [rr EXCEPT !.vs = s.ths, !.st = s.st, !.exc = IF s.ok THEN COk ELSE s.c])
+
+ExecTmp(st, env, f) ==
+  IF ~st.infr THEN Throw(st, env, OOM("tmp outside a function"))
+  ELSE LET r == SavingAssign(st, env, f) IN [r EXCEPT !.vs = <<>>, !.st.df = @ \o r.vs]
+
+\* "with": the assignments in order (each saving), the body (a lambda: a frame of its own), then
+\* the restores in reverse, whatever happened.
+WithAssigns(st, env, as, i, acc) ==      \* acc: result so far, acc.vs = restore thunks so far
+  IF i > Len(as) THEN acc
+  ELSE LET r == SavingAssign(st, env, as[i]) IN
+       IF Failed(r) THEN After(acc, [r EXCEPT !.vs = acc.vs \o r.vs])
+       ELSE WithAssigns(r.st, r.env, as, i + 1, After(acc, [r EXCEPT !.vs = acc.vs \o r.vs]))
+ExecWith(st, env, f) ==
+  LET ra == WithAssigns(st, env, f.assigns, 1, Done(st, env))
+      rb == IF Failed(ra) THEN ra ELSE After([ra EXCEPT !.vs = <<>>], ExecBlock(ra.st, ra.env, f.body))
+  IN IF Skip(rb.exc) THEN [rb EXCEPT !.vs = <<>>]
+     ELSE LET t == RunThunks(env, ra.vs, Len(ra.vs), [st |-> rb.st, out |-> <<>>, fails |-> <<>>, skip |-> <<>>], 0)
+          IN [rb EXCEPT !.st = t.st, !.vs = <<>>]
 
 \* "fn": the variable name~ is declared first (so the body may refer to the function itself),
 \* then the lambda is evaluated and modified to capture `return`.
@@ -661,12 +874,38 @@ EvalLogic(st, env, kind, args, i, last) ==
                        EvalLogic(r.st, r.env, kind, args, i + 1,
                                  IF kind = "coalesce" \/ r.vs = <<>> THEN last ELSE r.vs[Len(r.vs)]))
 
+\* "use": the module is evaluated at most once per interpreter, in a scope of its own (only the
+\* builtins are visible), with the ports of the importing command; a module whose evaluation
+\* throws is forgotten ("unloaded") and the exception propagates.  The namespace is then bound to
+\* the variable `name:` of the current scope (the alias, or the spec).  Circular imports are
+\* outside the model.
+ExecUse(st, env, f) ==
+  LET name == (IF f.as # <<>> THEN f.as[1] ELSE f.spec) \o ":" IN
+  IF f.spec = "str" /\ f.spec \notin DOMAIN st.mods THEN      \* the pre-defined module str (a few of its commands)
+    Done(Alloc(st, [k |-> "ns", env |-> EmptyEnv, b |-> "str"]), Bind(env, name, NewLoc(st)))
+  ELSE IF f.spec \notin DOMAIN st.mods THEN
+    (IF f.spec \in StdModules THEN Throw(st, env, OOM("standard module")) ELSE Throw(st, env, [c |-> "no-such-module"]))
+  ELSE LET m == st.mods[f.spec] IN
+    IF m.status = "loading" THEN Throw(st, env, OOM("circular import"))
+    ELSE IF m.status = "loaded" THEN
+      Done(Alloc(st, VNs(m.env)), Bind(env, name, NewLoc(st)))
+    ELSE LET st1 == [st EXCEPT !.mods[f.spec].status = "loading", !.infr = FALSE, !.df = <<>>]
+             r == ExecTop(st1, EmptyEnv, m.ast.ps, 1)
+             back == [r.st EXCEPT !.infr = st.infr, !.df = st.df]
+         IN IF Skip(r.exc) THEN [r EXCEPT !.env = env]
+            ELSE IF Failed(r) THEN [r EXCEPT !.env = env, !.vs = <<>>, !.st = [back EXCEPT !.mods[f.spec].status = "unloaded"]]
+            ELSE LET st2 == [back EXCEPT !.mods[f.spec] = [ast |-> m.ast, status |-> "loaded", env |-> r.env]]
+                 IN [r EXCEPT !.st = Alloc(st2, VNs(r.env)), !.env = Bind(env, name, NewLoc(st2)), !.vs = <<>>]
+
 ExecForm(st, env, f) ==
   CASE f.t = "cmd"   -> ExecCmd(st, env, f)
+    [] f.t = "use"   -> ExecUse(st, env, f)
     [] f.t = "var"   -> ExecVar(st, env, f)
     [] f.t = "set"   -> ExecSet(st, env, f)
     [] f.t = "fn"    -> ExecFn(st, env, f)
     [] f.t = "del"   -> ExecDel(st, env, f.lhs, 1)
+    [] f.t = "tmp"   -> ExecTmp(st, env, f)
+    [] f.t = "with"  -> ExecWith(st, env, f)
     [] f.t = "if"    -> ExecIf(st, env, f, 1)
     [] f.t = "while" -> ExecWhile(st, env, f, FALSE, MaxIter)
     [] f.t = "for"   -> ExecFor(st, env, f)
@@ -711,7 +950,7 @@ ExecStages(st0, st, env, fs, i, input, excs, facts) ==
       excs2 == Append(excs, r.exc)
   IN IF Skip(r.exc) THEN r
      ELSE IF ~last THEN
-            IF ~KeepsOld(st0, r.st) THEN Throw(r.st, env, CUnspec)                          \* (a)
+            IF ~KeepsOld(st0, r.st) \/ r.st.df # st0.df THEN Throw(r.st, env, CUnspec)     \* (a)
             ELSE ExecStages(st0, r.st, r.env, fs, i + 1, r.out, excs2, facts2)
      ELSE IF ~ScheduleFree(facts2) THEN Throw(r.st, env, CUnspec)                           \* (c)
      ELSE IF ~KeepsOld(st0, r.st) /\
@@ -748,6 +987,7 @@ DeclareRest(st, env, ps, i) ==
            d == CASE f.t = "var" -> Declare(st, env, [j \in 1..Len(f.lhs) |-> f.lhs[j].n],
                                             [j \in 1..Len(f.lhs) |-> VNil], 1)
                   [] f.t = "fn"  -> Declare(st, env, <<f.name \o "~">>, <<VBuiltin("nop")>>, 1)
+                  [] f.t = "use" -> Declare(st, env, <<(IF f.as # <<>> THEN f.as[1] ELSE f.spec) \o ":">>, <<VNs(EmptyEnv)>>, 1)
                   [] f.t = "del" -> [st |-> st,            \* deletion of a variable is a compile-time effect
                                      env |-> [x \in (DOMAIN env) \ {f.lhs[j].n : j \in {q \in 1..Len(f.lhs) : f.lhs[q].idx = <<>>}} |-> env[x]]]
                   [] f.t = "for" -> LET sv == ScopeVar(st, env, f.v.n) IN [st |-> sv.st, env |-> sv.env]
@@ -756,7 +996,6 @@ DeclareRest(st, env, ps, i) ==
                   [] OTHER -> [st |-> st, env |-> env]
        IN DeclareRest(d.st, d.env, ps, i + 1)
 
-RECURSIVE ExecTop(_, _, _, _)
 \* The pipelines of a top-level chunk.  When pipeline i throws: `var` binds its names last, so a
 \* failing `var` has declared nothing yet; fn / for / try bind theirs first.
 ExecTop(st, env, ps, i) ==
@@ -764,13 +1003,14 @@ ExecTop(st, env, ps, i) ==
   ELSE LET r == ExecPipe(st, env, ps[i]) IN
        IF ~Failed(r) THEN After(r, ExecTop(r.st, r.env, ps, i + 1))
        ELSE IF Skip(r.exc) THEN r
-       ELSE LET isVar == Len(ps[i].fs) = 1 /\ ps[i].fs[1].t = "var"
+       ELSE LET isVar == Len(ps[i].fs) = 1 /\ ps[i].fs[1].t \in {"var", "use"}   \* these bind their names last
                 d == DeclareRest(r.st, r.env, ps, IF isVar THEN i ELSE i + 1)
             IN [r EXCEPT !.st = d.st, !.env = d.env]
 
-\* EvalChunk: one Evaler.Eval.  -> [st, out, exc]
+\* EvalChunk: one Evaler.Eval.  -> [st, out: values written, bytes: bytes written, exc]
 EvalChunk(st, chunk) ==
   LET r == ExecTop(st, st.genv, chunk.ps, 1) IN
-  IF Skip(r.exc) THEN [st |-> st, out |-> <<>>, exc |-> r.exc]
-  ELSE [st |-> [r.st EXCEPT !.genv = r.env, !.depth = 0], out |-> r.out, exc |-> r.exc]
+  IF Skip(r.exc) THEN [st |-> st, out |-> <<>>, bytes |-> <<>>, exc |-> r.exc]
+  ELSE IF HasUnord(r.out) THEN [st |-> st, out |-> <<>>, bytes |-> <<>>, exc |-> CUnspecBands]
+  ELSE [st |-> [r.st EXCEPT !.genv = r.env, !.depth = 0], out |-> OutValues(Expand(r.out)), bytes |-> OutBytes(r.out), exc |-> r.exc]
 =============================================================================
